@@ -42,10 +42,26 @@ def build(tr, valf, rng=None, history=False):
                     setattr(c, n, {"num": rng.uniform(-90, 90), "true": True, "str": "abc"}[kind])
             except DiffcalcException:
                 pass
+        want = {n: (True if n in VOID else valf(NAMES.index(n))) for n in tr}
         try:
-            c.asdict = {n: (True if n in VOID else valf(NAMES.index(n))) for n in tr}
+            c.asdict = want
         except DiffcalcException:
             return None
+        if set(c.asdict) != set(tr):
+            # accepted without complaint, yet not held: does a fresh object hold this triple?
+            try:
+                fresh = Constraints(dict(want))
+                held = set(fresh.asdict) == set(tr)
+                b = fresh.is_current_mode_implemented() if held else None
+            except Exception:  # noqa
+                held = False
+            if held:
+                try:
+                    a = c.is_current_mode_implemented()
+                except Exception as e:  # noqa
+                    a = f"raises {type(e).__name__}: {str(e)[:60]}"
+                return ("state-dependent", f"after a history with rejected assignments the object accepted {sorted(tr)} without complaint but holds {sorted(c.asdict)} "
+                                           f"and answers implemented={a}; a fresh object holds the triple and answers {b}")
     else:
         try:
             for n in tr:
@@ -106,7 +122,21 @@ def build(tr, valf, rng=None, history=False):
             except DiffcalcException:
                 pass
         if dict(c.asdict) != before:
-            return None   # a rejected update changed the state: C17's concern, not comparable here
+            # a rejected update changed the state — that by itself is C17's concern; C09's is whether the table still answers for the set the object
+            # now says it holds as a fresh object holding that set does
+            now = dict(c.asdict)
+            try:
+                fresh = Constraints(dict(now))
+                b = fresh.is_current_mode_implemented()
+            except Exception:  # noqa — not a constructible / complete set: nothing to compare
+                return None
+            try:
+                a = c.is_current_mode_implemented()
+            except Exception as e:  # noqa
+                a = f"raises {type(e).__name__}: {str(e)[:60]}"
+            if len(now) == 3 and set(fresh.asdict) == set(now) and a != b:
+                return ("state-dependent", f"after rejected assignments the object holds {sorted(now)} and answers implemented={a}; a fresh object holding the same set answers {b}")
+            return None
     return c
 
 
@@ -122,7 +152,7 @@ def run_impl(ctx, nsets, history):
                 res[(tr, si)] = (False, None, None, None)
                 continue
             if isinstance(c, tuple):
-                res[(tr, si)] = (True, None, "EXC", "copying / pickling the constraint set raised " + c[1])
+                res[(tr, si)] = (True, None, "HIST", c[1]) if c[0] == "state-dependent" else (True, None, "EXC", "copying / pickling the constraint set raised " + c[1])
                 continue
             try:
                 im = c.is_current_mode_implemented()
@@ -180,6 +210,8 @@ def oracle(ctx, widen=1):
             if history is not False and ref is not None and ref[0] and im is not None and ref[1] is not None and im != ref[1]:
                 # the answer is a function of the three active constraints, not of the object's past
                 bad = f"answers implemented={im} where a fresh object holding the same three constraints answers {ref[1]}"
+            elif im is None and kind == "HIST":
+                bad = detail
             elif im is None:
                 bad = f"is_current_mode_implemented raised {detail}"
             elif im and kind in ("NOTIMPL", "NOCODE"):
